@@ -99,7 +99,22 @@ func c08Run(c c08Case) error {
 			}
 		}
 	}
-	_ = spg.CSNone
+	// one list object shared by several recipes evaluated in turn: the value
+	// depends on the recipe alone, not on which recipe asked before
+	if wl, err := spg.NewWordList(append([]string{}, c.W.Words...)); err == nil {
+		for round := 0; round < 2; round++ {
+			for _, scheme := range []string{"random", "none", "one", "all", "random"} {
+				for _, L := range []int{c.W.Length, 1 + (c.W.Length+round)%7} {
+					r := spg.NewWLRecipe(L, wl)
+					r.Capitalize = spg.CapScheme(scheme)
+					want := oracle.WLEntropy(L, kept, scheme, 0)
+					if got := r.Entropy(); !oracle.Close32(got, want, 4, 0) {
+						return fmt.Errorf("recipes sharing one word list: Length %d scheme %s: Entropy() = %v, want %.6f", L, scheme, got, want)
+					}
+				}
+			}
+		}
+	}
 	return nil
 }
 
